@@ -1489,6 +1489,23 @@ fn gen_bytes<X: BH>(rng: &mut Rng, tier: Tier, n: usize, emit: &mut dyn FnMut(St
                 emit(format!("{} hashext {} 3 {}", h, f, join(&es)));
             }
         }
+        // long element lists: the wrappers serialise non-canonical fields element by element (any batching of that
+        // loop has its seams beyond the small lengths above), lengths on both sides of 1024 / 2048 / 4096
+        let longs: &[usize] = if big { &[1023, 1024, 1025, 1026, 2047, 2048, 2049, 3000, 4097] } else { &[1024, 1025, 1026, 2049, 3000] };
+        for &len in longs {
+            let es: Vec<u128> = (0..len).map(|_| rng.u128() % m).collect();
+            emit(format!("{} hashel {} {}", h, f, join(&es)));
+            if f != "f128" && len <= 2049 {
+                let raws: Vec<u128> = (0..len).map(|_| rng.u128() % rawlim).collect();
+                emit(format!("{} hashraw {} {}", h, f, join(&raws)));
+            }
+            if len % 2 == 0 {
+                emit(format!("{} hashext {} 2 {}", h, f, join(&es)));
+            }
+            if len % 3 == 0 && cubic {
+                emit(format!("{} hashext {} 3 {}", h, f, join(&es)));
+            }
+        }
     }
     for k in 0..(if big { 200 } else { 30 }) {
         let a = if k == 0 { vec![0u8; X::N] } else { rng.bytes(X::N) };
